@@ -13,6 +13,8 @@ OpsV == {"GoNew", "Sentinel", "Errno", "New", "Newf", "NewfW", "PkgNew", "Unimpl
 \* restricted instance: status codes attached at several levels (the most recent wins,
 \* codes.Unknown included), over plain and status leaves
 OpsCode == {"GoNew", "New", "GrpcStatus", "Wrap", "WithHint", "WrapWithGrpcCode", "WrapWithHTTPCode", "Grpc"}
+\* restricted instance: every status code a handler can attach
+OpsAllCodes == {"GoNew", "New", "Wrap", "WrapWithGrpcCode", "AllGrpcCodes", "Grpc"}
 ShapesOne == {<<"w1">>}
 ShapesV == {<<"w1">>, <<"w1", "SEP", "w2">>, <<"w2", "NL", "w1">>, <<"L_big">>, <<"w1", "L_big">>}
 Shapes2V == {<<"w2">>}
